@@ -4,10 +4,11 @@ Exhaustive over a value alphabet: all ordered pairs x 8 operators; all triples o
 x (between, 4 bracket forms of `in`, explicit conjunctions); plus random values of each ordered kind.
 """
 import json
+import re
 import os
 
 import runner
-from common import chunks, panic_signature, rng_for
+from common import chunks, panic_signature, rng_for, warm
 
 LEVEL = "exploration"
 
@@ -160,7 +161,7 @@ def run(rep, tier, seed):
             for j in js:
                 for op in OPS:
                     texts.append("v%d %s v%d" % (i, op, j))
-            cases.append({"op": "evalmany", "scope": scope, "texts": texts})
+            cases.append(warm({"op": "evalmany", "scope": scope, "texts": texts}))
             meta.append((i, js))
     results, _ = runner.run_cases("dbg", cases, rep.workdir, label="pairs")
     table = {}
@@ -175,6 +176,8 @@ def run(rep, tier, seed):
                 r = res["rs"][k]
                 k += 1
                 rep.count()
+                if "rep_diff" in r:
+                    rep.violation("repeated-evaluation-differs:op=%s" % op, "`%s %s %s` evaluated twice by one prepared evaluator over the same scope: %s" % (labels[i], op, labels[j], json.dumps(r["rep_diff"])[:300]), _replay(scope, "v%d %s v%d" % (i, op, j), None, r))
                 if "panic" in r:
                     rep.violation(
                         "%s:op=%s:lhs=%s,rhs=%s" % (panic_signature(r["panic"]), op, kinds[i], kinds[j]),
@@ -268,18 +271,41 @@ def run(rep, tier, seed):
         ("le-lt", "v{a} <= v{x} and v{x} < v{b}"),
         ("lt-lt", "v{a} < v{x} and v{x} < v{b}"),
     ]
+    # the same interval forms with one end point written as a LITERAL (a prepared interval must still read its other,
+    # named end point at every evaluation)
+    LIT_FORMS = [("in[lit..]", "v{x} in [{A}..v{b}]"), ("in[..lit]", "v{x} in [v{a}..{B}]"), ("between-lit", "v{x} between {A} and v{b}"), ("in(lit..]", "v{x} in ({A}..v{b}]"), ("in[..lit)", "v{x} in [v{a}..{B})")]
+    FORMS = FORMS + LIT_FORMS
+
+    def lit_of(v):
+        if isinstance(v, dict) and "n" in v and re.fullmatch(r"\d+(\.\d+)?", v["n"]):
+            return v["n"]
+        if isinstance(v, dict) and "s" in v and all(0x20 <= ord(ch) < 0x7F and ch not in '"\\' for ch in v["s"]):
+            return '"%s"' % v["s"]
+        if isinstance(v, dict) and "d" in v and re.fullmatch(r"\d{4}-\d\d-\d\d", v["d"]):
+            return 'date("%s")' % v["d"]
+        return None
+
     for kind, origin, vals in triple_sets:
         m = len(vals)
         sc = scope_for([v for _, v in vals])
+        lits = [lit_of(v) for _, v in vals]
         for x in range(m):
             texts = []
             idx = []
             for a in range(m):
                 for b in range(m):
                     for fname, form in FORMS:
-                        texts.append(form.format(x=x, a=a, b=b))
+                        if "{A}" in form or "{B}" in form:
+                            # no literal spelling for this end point: the all-names form stands in (the law then holds trivially)
+                            alt = {"in[lit..]": "in[]", "in[..lit]": "in[]", "between-lit": "between", "in(lit..]": "in(]", "in[..lit)": "in[)"}[fname]
+                            if ("{A}" in form and lits[a] is None) or ("{B}" in form and lits[b] is None):
+                                texts.append(dict(FORMS)[alt].format(x=x, a=a, b=b))
+                            else:
+                                texts.append(form.replace("{A}", lits[a] or "").replace("{B}", lits[b] or "").format(x=x, a=a, b=b))
+                        else:
+                            texts.append(form.format(x=x, a=a, b=b))
                     idx.append((a, b))
-            tcases.append({"op": "evalmany", "scope": sc, "texts": texts})
+            tcases.append(warm({"op": "evalmany", "scope": sc, "texts": texts}))
             tmeta.append((kind, origin, vals, x, idx))
     tresults, _ = runner.run_cases("dbg", tcases, rep.workdir, label="triples")
     triple_laws = 0
@@ -292,15 +318,19 @@ def run(rep, tier, seed):
         k = 0
         for a, b in idx:
             obs = {}
+            ftext = {}
             for fname, form in FORMS:
                 r = res["rs"][k]
+                ftext[fname] = case["texts"][k]
                 k += 1
                 rep.count()
+                if "rep_diff" in r:
+                    rep.violation("repeated-evaluation-differs:form=%s" % fname, "`%s` evaluated twice by one prepared evaluator over the same scope: %s" % (ftext[fname], json.dumps(r["rep_diff"])[:300]), {"variant": "dbg", "case": {"op": "eval", "scope": case["scope"], "warm_scope": case.get("warm_scope"), "reps": 2, "text": ftext[fname]}})
                 if "panic" in r:
-                    rep.violation("%s:form=%s:kind=%s" % (panic_signature(r["panic"]), fname, kind), "panic in %s" % form.format(x=x, a=a, b=b), {"variant": "dbg", "case": {"op": "eval", "scope": case["scope"], "text": form.format(x=x, a=a, b=b)}})
+                    rep.violation("%s:form=%s:kind=%s" % (panic_signature(r["panic"]), fname, kind), "panic in %s" % ftext[fname], {"variant": "dbg", "case": {"op": "eval", "scope": case["scope"], "text": ftext[fname]}})
                     obs[fname] = "missing"
                 elif "v" not in r:
-                    rep.violation("no-value:form=%s:kind=%s" % (fname, kind), "no value: %s" % json.dumps(r)[:300], {"variant": "dbg", "case": {"op": "eval", "scope": case["scope"], "text": form.format(x=x, a=a, b=b)}})
+                    rep.violation("no-value:form=%s:kind=%s" % (fname, kind), "no value: %s" % json.dumps(r)[:300], {"variant": "dbg", "case": {"op": "eval", "scope": case["scope"], "text": ftext[fname]}})
                     obs[fname] = "missing"
                 else:
                     obs[fname] = as_tv(r)
@@ -308,17 +338,18 @@ def run(rep, tier, seed):
             if not sampled:
                 rep.sample({"triple": [vals[x][1], vals[a][1], vals[b][1]], "observed": {f: _show(o) for f, o in obs.items()}})
                 sampled = True
-            pairs = [("between", "le-le", "between-vs-comparisons"), ("in[]", "le-le", "in-closed-vs-comparisons"), ("between", "in[]", "between-vs-in"), ("in(]", "lt-le", "in-open-start-vs-strict"), ("in[)", "le-lt", "in-open-end-vs-strict"), ("in()", "lt-lt", "in-open-vs-strict")]
+            pairs = [("in[lit..]", "le-le", "in-closed-literal-start-vs-comparisons"), ("in[..lit]", "le-le", "in-closed-literal-end-vs-comparisons"), ("between-lit", "le-le", "between-literal-vs-comparisons"),
+                     ("in(lit..]", "lt-le", "in-open-literal-start-vs-strict"), ("in[..lit)", "le-lt", "in-open-literal-end-vs-strict"), ("between", "le-le", "between-vs-comparisons"), ("in[]", "le-le", "in-closed-vs-comparisons"), ("between", "in[]", "between-vs-in"), ("in(]", "lt-le", "in-open-start-vs-strict"), ("in[)", "le-lt", "in-open-end-vs-strict"), ("in()", "lt-lt", "in-open-vs-strict")]
             for f1, f2, law in pairs:
                 if obs[f1] == "missing" or obs[f2] == "missing":
                     continue
                 triple_laws += 1
                 if obs[f1] != obs[f2]:
-                    text = dict(FORMS)[f1].format(x=x, a=a, b=b)
+                    text = ftext[f1]
                     rep.violation(
                         "%s:kind=%s" % (law, kind),
                         "x=%s a=%s b=%s: `%s` gave %s but `%s` gave %s" % (vals[x][0], vals[a][0], vals[b][0], f1, _show(obs[f1]), f2, _show(obs[f2])),
-                        {"variant": "dbg", "case": {"op": "evalmany", "scope": case["scope"], "texts": [text, dict(FORMS)[f2].format(x=x, a=a, b=b)]}},
+                        {"variant": "dbg", "case": {"op": "evalmany", "scope": case["scope"], "texts": [text, ftext[f2]]}},
                     )
     rep.extra["triple_laws_checked"] = triple_laws
     rep.extra["exhaustive"] = True
